@@ -110,3 +110,19 @@ fn d7_thread_count_invariance() {
         }
     }
 }
+
+/// D8 (C11): a tree with a NaN or infinite payoff is accepted; evaluation and solving are then
+/// undefined (NaN utilities, NaN regrets, a NaN "bound")
+#[test]
+fn d8_non_finite_payoff_rejected() {
+    for bad in [f64::NAN, f64::INFINITY, f64::NEG_INFINITY] {
+        let root = pl(PlayerNum::One, "x", vec![("a", t(bad)), ("b", t(1.0))]);
+        let res = Game::from_root(root);
+        if let Ok(g) = &res {
+            let (s, _) = g.solve(SolveMethod::Full, 3, 0.0, 1, None).unwrap();
+            let info = s.get_info();
+            eprintln!("accepted payoff {}: utility {} regret {}", bad, info.player_utility(PlayerNum::One), info.regret());
+        }
+        assert!(res.is_err(), "a tree with payoff {} must be rejected by from_root", bad);
+    }
+}
